@@ -164,6 +164,9 @@ def run(tier):
                     "executions": r["executions"], "distinct_outcomes": len(r["outcomes"]), "branching_points": r["max_points"]})
     depth = 6 if tier == "thorough" else 5
     tot = monitors.run_models(rep, models(tier), depth, dedup_depth_plain=depth - 2, time_cap=1500 if tier == "thorough" else 110)
+    # the same monitors on SCTP connections (accept / sctp_send / close branches of the node)
+    t_sctp = monitors.run_models(rep, monitors.sctp_copies(models(tier), ('two-peers-equal-hop-by-hop-ids', 'one-peer-reconnecting')), depth - 1, time_cap=400 if tier == "thorough" else 25)
+    monitors.merge_tot(tot, t_sctp)
     rep.cov.update({"states": tot["states"], "transitions": tot["transitions"], "traces_validated_against_impl": tot["transitions"] + tot["plain_transitions"] + sched,
                     "max_depth": tot["max_depth"], "states_without_dedup": tot["plain_states"], "schedules": sched,
                     "explanation": "BFS over histories of 1..3 peers sending requests with hop-by-hop ids from a pool of 2 (equal ids on different "
